@@ -166,6 +166,24 @@ void run_sweep(Stats& st) {
 		fs[1].name = "Tail.txt"; fs[1].content = {1, 2, 3};
 		Tape t(tp); success_case(t, st, fs, false);
 	}
+	// many members: names built systematically from letters of both cases, digits and the punctuation that sorts between the
+	// letter cases, so that every pair-ordering corner (prefix, case, '_' vs letter, '[' vs 'a') occurs next to each other
+	for (unsigned n : {17u, 64u, 150u}) {
+		if (!sw("many_files", n)) continue;
+		const char alpha[] = {'a', 'B', '_', 'z', '[', 'Z', '0', '^', '.', '`', 'A', '-', 'b', '~', '{', '@'};
+		std::vector<InFile> fs;
+		for (unsigned i = 0; i < n; ++i) {
+			InFile f; unsigned v = i * 7 + 3;
+			f.name = std::string(1, alpha[v % 16]) + alpha[(v / 16) % 16] + (i % 3 == 0 ? std::string() : std::string(1, alpha[(v / 5) % 16]));
+			if (f.name == "." || f.name == "..") f.name += "x";
+			bool clash; do { clash = false; for (auto& g : fs) if (ieq(g.name, f.name)) { clash = true; f.name += char('0' + i % 10); } } while (clash);
+			for (const char* r : {"d0", "d1", "sub", "in", "o", "x", "all"}) if (ieq(f.name, r)) f.name += "_";
+			f.dir = i % 5 == 0 ? "%d0/" : "";
+			f.content.resize(i % 9); for (size_t k = 0; k < f.content.size(); ++k) f.content[k] = uint8_t(i + k);
+			fs.push_back(f);
+		}
+		for (int v = 0; v < 2; ++v) { tp[0] = uint8_t(v * 3); Tape t(tp); success_case(t, st, fs, false); }
+	}
 	st.exhaustive = true;
 }
 
